@@ -45,7 +45,7 @@ def run(P, rep, tier):
         rep.info('remaining C07 rules not evaluated on this tree')
         return
     rep.ok(r5, R0.header_fn.short, {'paths': npaths})
-    R, res = rr.analyse(P)
+    R, res = rr.analyse(P, tier)
     rep.analysed(*R.funcs)
     r1 = rep.rule('C07-R1', 'read(n): n is the unmodified length option, proven int with lower and upper bound', reference=6)
     r3 = rep.rule('C07-R3', 'one read per content section; no other stream operation; no delimiter scanning', reference=6)
